@@ -24,6 +24,13 @@ Variable fstr : list N -> list N.
 Definition is_float_tok (t : list N) : bool :=
   match fhex t with Some _ => true | None => false end.
 
+(* a numeric cell; a token that float() reads as NaN ("nan", "NaN", ...) is a NaN sample *)
+Definition mk_num (t : list N) : cell :=
+  match fhex t with
+  | Some h => if str_eqb h (s2l "nan") then CNaN else CNum t
+  | None => CNum t
+  end.
+
 (* ---- substitutions --------------------------------------------------------------------- *)
 Inductive rsub := SubComma | SubRunonMinus | SubRunonDot.
 Definition apply_sub (s : rsub) (line : list N) : list N :=
@@ -97,7 +104,7 @@ Definition inspect_twice (body : list (list N)) (subs : list rsub) : option nat 
   else (n, subs).
 
 (* ---- normal engine -------------------------------------------------------------------------- *)
-Definition tok_cell (t : list N) : cell := if is_float_tok t then CNum t else CStr t.
+Definition tok_cell (t : list N) : cell := if is_float_tok t then mk_num t else CStr t.
 
 Fixpoint normal_items (d : dlm) (subs : list rsub) (body : list (list N)) : list (list N) :=
   match body with
@@ -140,7 +147,7 @@ Fixpoint transpose_n (n : nat) (rows : list (list (list N))) : list (list (list 
 (* one column of the (possibly mixed) array -> its cells.  mixed = the flat array contained
    a non-numeric token, so numpy built a string array and numbers were str()-ed. *)
 Definition column_cells (mixed : bool) (col : list (list N)) : list cell :=
-  if negb mixed then List.map (fun t => CNum t) col
+  if negb mixed then List.map mk_num col
   else
     (* numbers were str()-ed into the string array; float(str(x)) = x, so a column that
        converts back to float carries the values of the original tokens *)
@@ -148,7 +155,7 @@ Definition column_cells (mixed : bool) (col : list (list N)) : list cell :=
     match col with
     | [] => []
     | first :: _ =>
-        if is_float_tok first && forallb is_float_tok col then List.map (fun t => CNum t) col
+        if is_float_tok first && forallb is_float_tok col then List.map mk_num col
         else List.map (fun t => CStr t) as_text      (* text column, or astype(float) failed *)
     end.
 
@@ -188,7 +195,7 @@ Definition numpy_engine (body : list (list N)) : option (list (list cell)) :=
   | r0 :: _ =>
       let n := List.length r0 in
       if forallb (fun r => Nat.eqb (List.length r) n) rows && forallb (forallb is_float_tok) rows
-      then Some (List.map (List.map (fun t => CNum t)) (transpose_n n rows))
+      then Some (List.map (List.map mk_num) (transpose_n n rows))
       else None
   end.
 
